@@ -162,7 +162,7 @@ def run_case(case):
             classes.add("mut_" + e["method"])
         snap_live = observe.snapshot(sysm)
         changed = bool(observe.diff(snap_before, snap_live, rtol=1e-12))
-        touched = [e["obj"]] if e["op"] != "group" else [c["obj"] for c in e["changes"]]
+        touched = [c["obj"] for c in e["changes"]] if e["op"] == "group" else ([] if e["op"] == "simulate" else [e["obj"]])
         from ..spec import reachable
         in_system = any(t in reachable(spec_before) for t in touched)      # an edit on an object outside the system is not "an edit of the system"
         C["edits_changing_values"] += int(changed)
@@ -185,7 +185,7 @@ def run_case(case):
                     V.append({"kind": "stale_after_edit", "edit": edits.describe(e), "n_slots": len(d),
                               "slots": observe.explain_diff(snap_live, snap_ref, d), "history": h.log[-10:],
                               "mechanism": f3_mechanism(spec_before, spec_after, d)})
-            last = (e, spec_before, snap_before)
+            last = (e, spec_before, snap_before) if edits.inverse(e, spec_before) is not None else None
         if changed and in_system and sysm.previous_change is not None:
             C["previous_total_checks"] += 1
             if not totals_equal(tot_before, totals_attr(sysm, "previous")):
